@@ -70,6 +70,7 @@ def run_one(params: dict, chooser) -> dict:
                 bob.files[p] = bytes(range(256)) * 40
             bob.segment = 4096
             direct = params['direct']
+            _saved_listener = tw.cw.net.listeners.get((BOB[1], BOB[2]))
             if direct == 'hang':
                 tw.cw.net.routes[(BOB[1], BOB[2])] = 'hang'
                 del tw.cw.net.listeners[(BOB[1], BOB[2])]
@@ -104,7 +105,14 @@ def run_one(params: dict, chooser) -> dict:
                     _open(ticket)
                     arm_cut()
                 bob._open_file_connection = open_and_arm
-            tw.start(scan=False)
+            upload = params.get('kind') == 'upload'
+            if upload:
+                tw.share_file('music/up.mp3', bytes(range(256)) * 40)
+                if direct != 'fast':
+                    # bob listens while it queues its request, then cannot be reached any more
+                    tw.cw.net.listeners[(BOB[1], BOB[2])] = _saved_listener
+                    del tw.cw.net.routes[(BOB[1], BOB[2])]
+            tw.start(scan=upload)
             world = tw.world
             writes: list[tuple] = []      # (seq, time, conn label, bytes) written by the library
 
@@ -140,7 +148,24 @@ def run_one(params: dict, chooser) -> dict:
             world.boundary_hooks.append(watch)
 
             transfers: list = []
-            for i in range(n):
+            path0 = PATHS[0]
+            if upload:
+                path0 = tw.remote_path_of('music/up.mp3')
+                pcq = bob.ensure_p_conn()
+                pcq.send(M.PeerTransferQueue.Request(path0))
+
+                def grab():
+                    if not transfers:
+                        ups = tw.client.transfers.get_uploads()
+                        if ups:
+                            transfers.append(ups[0])
+                            if direct != 'fast':
+                                # the downloader goes away after queueing: the library has to connect to it
+                                pcq.close()
+                                tw.cw.net.listeners.pop((BOB[1], BOB[2]), None)
+                                tw.cw.net.routes[(BOB[1], BOB[2])] = direct
+                world.boundary_hooks.append(grab)
+            for i in range(0 if upload else n):
                 async def dl(i=i):
                     tr = await tw.client.transfers.download('bob', PATHS[i])
                     transfers.append(tr)
@@ -205,12 +230,12 @@ def run_one(params: dict, chooser) -> dict:
             # ---- oracle: nothing more happens for the transfer after the call returned ----------------------------
             if 't' in snap and snap.get('exc') is None:
                 tr = snap['tr']
-                path_b = PATHS[0].encode('utf-8')
+                path_b = path0.encode('utf-8')
                 later = [w for w in writes[snap['seq']:] if path_b in w[3]]
                 if later:
                     kinds = sorted({_frame_kind(w[3]) for w in later})
                     add('message-after-return', f"{action} returned at t={snap['t']}; afterwards the library wrote "
-                        f"{[(round(w[1], 3), w[2], _frame_kind(w[3])) for w in later][:4]} about {PATHS[0]}",
+                        f"{[(round(w[1], 3), w[2], _frame_kind(w[3])) for w in later][:4]} about {path0}",
                         f"C06:message-after-return:{action}:{'+'.join(kinds)}")
                 # replies allowing a transfer of that file
                 offered = {t for t, o in bob.offers.items() if o['path'] == PATHS[0]}
@@ -304,6 +329,15 @@ def scenarios(tier: str):
                         if tier != 'quick' and trig is None:
                             out.append({'n': n, 'direct': direct, 'indirect': indirect, 'action': action,
                                         'trigger': trig, 'net_dev': True})
+    # uploads: the downloader queued a file, the library negotiates (reachable / hanging / refusing downloader)
+    for direct in ('fast', 'hang', 'refuse'):
+        for indirect in (('silence',) if tier == 'quick' else ('silence', 'pierce')):
+            for action in ('abort', 'pause', 'remove'):
+                if tier == 'quick' and (direct, action) not in (('fast', 'abort'), ('hang', 'abort'), ('hang', 'remove'),
+                                                               ('refuse', 'abort'), ('refuse', 'pause')):
+                    continue
+                out.append({'kind': 'upload', 'n': 1, 'direct': direct, 'indirect': indirect, 'action': action,
+                            'trigger': None})
     return out
 
 
